@@ -692,3 +692,48 @@ theorem block_builds_the_model_root (h : Heap) (r : Ptr) (x : Bytes) (cs : List 
     rw [List.head?_reverse, hlast]
 
 end Gtree.SrcH
+
+namespace Gtree.SrcH
+open Gtree
+
+/-- the items of a block's rows handed to the model's generator one after the other (`addItem`, the function the
+    model's `genStep` calls for a parsed row): levels ≥ 2, the current root being built is `z` -/
+def addItems (s : GState) : List (Nat × Bytes × Bytes) → Except GErr GState
+  | [] => .ok s
+  | (k, x, row) :: its =>
+    match addItem s k x row with
+    | .ok s' => addItems s' its
+    | .error e => .error e
+
+/-- `feedM` is the model's generator on the rows of one block: folding `addItem` over items below root level, from a
+    state whose current root is `z`, fails exactly when `feedM` is undefined — with the format error naming the first
+    rejected row — and otherwise ends with `feedM`'s zipper as the current root (completed roots and parser state
+    untouched). -/
+theorem addItems_feedM : ∀ (its : List (Nat × Bytes × Bytes)) (s : GState) (z : Zipper),
+    s.cur = some z → (∀ it ∈ its, it.1 ≠ 1) →
+    (match feedM z (its.map (fun it => (it.1, it.2.1))) with
+     | none => ∃ row, addItems s its = .error (.format row) ∧ row ∈ its.map (fun it => it.2.2)
+     | some z' => addItems s its = .ok { s with cur := some z' })
+  | [], s, z, hs, _ => by
+    simp only [List.map_nil, feedM, addItems]
+    cases s; simp_all
+  | (k, x, row) :: its, s, z, hs, hk => by
+    have hk1 : (k == 1) = false := by
+      have := hk (k, x, row) (by simp)
+      simpa using this
+    simp only [List.map_cons, feedM, addItems, addItem, hk1, hs, Bool.false_eq_true, if_false]
+    cases hd : Gtree.dfs k x z with
+    | none => exact ⟨row, rfl, by simp⟩
+    | some z1 =>
+      simp only []
+      have ih := addItems_feedM its { s with cur := some z1 } z1 rfl (fun it hit => hk it (by simp [hit]))
+      cases hf : feedM z1 (its.map (fun it => (it.1, it.2.1))) with
+      | none =>
+        simp only [hf] at ih ⊢
+        obtain ⟨r, h1, h2⟩ := ih
+        exact ⟨r, h1, by simp [h2]⟩
+      | some z2 =>
+        simp only [hf] at ih ⊢
+        exact ih
+
+end Gtree.SrcH
